@@ -234,6 +234,13 @@ def run(ctx):
     d9_param_staging(db, rep)
     d11_stride_sign(db, rep)
     d12_displacement_agree(db, rep)
+    # D13: the iteration space comes from the text.  The handlers of `.n` / `.m` walk the tokens of the line with a cursor: a
+    # value token that is consumed without being stepped over is read again as the plain constant n (`.n max 16` then makes the
+    # back ends unroll 16 elements whatever ex->n says) - rule shared with C15 (rules/c15.py d6_token_cursor)
+    from rules.c15 import d6_token_cursor
+    SETN = ("orc_program_set_constant_n", "orc_program_set_n_multiple", "orc_program_set_n_minimum", "orc_program_set_n_maximum",
+            "orc_program_set_constant_m", "orc_program_set_2d")
+    d6_token_cursor(db, rep, names=("D13-DOTN-TOKEN-CURSOR", "D13b-DOTN-TOKEN-ONCE"), only=lambda f: any(c.name in SETN for c in f.calls()), floor=1)
 
     # D10: the region counters the split emitters compute tile ex->n on every path of the emitted code
     import emitsym
